@@ -327,7 +327,11 @@ func (ex *Exec) assert(kind, label string, goal *T) {
 	o := &Obl{Name: name, Kind: kind, Pos: ex.posString(ex.curPos), PC: ex.st.pc, Goal: goal, NFacts: len(ex.facts), Func: ex.name, Scopes: ex.st.scopes, FactIdx: -1}
 	ex.obls = append(ex.obls, o)
 	n0 := len(ex.facts)
-	ex.assume(goal)
+	if goal != False {
+		// (an obligation that is false outright - a clause that cannot be evaluated - must not be assumed: it would make
+		// everything after it vacuous)
+		ex.assume(goal)
+	}
 	if len(ex.facts) == n0+1 {
 		o.FactIdx = n0
 	}
